@@ -16,7 +16,7 @@ RULE = ('grid: ids {0..9,0xff,0x100..0x108,0x7fff,0xffff} x values {0,1,2,3,2^14
         '(first/last of a two-setting frame), all enumerated every run; then the window-overflow sub-grid (1-5 streams with '
         'send windows at 2^31-1-d, some closed or half-closed, INITIAL_WINDOW_SIZE raised by d-1,d,d+1) and random (id,value) '
         'pairs; non-trivial = verdict of the table compared with the observed reaction; distinct = the grid cell / hash of case')
-MINIMA = {'upgrade_header_settings_judged': 500, 'grid_judged': 4000, 'rejected_with_code_checked': 500, 'accepted_checked': 2000, 'overflow_cases_judged': 300,
+MINIMA = {'upgrade_header_settings_judged': 500, 'shrink_below_octets_in_flight': 60, 'grid_judged': 4000, 'rejected_with_code_checked': 500, 'accepted_checked': 2000, 'overflow_cases_judged': 250,
           'overflow_expected_error': 50, 'overflow_expected_ok': 50, 'overflow_cases_with_reserved_stream': 100}
 EXHAUSTIVE = {}
 
@@ -192,8 +192,50 @@ def judge_local(rep, chan, exc, want, w):
     rep.count('rejected_with_code_checked')
 
 
+def run_shrink(rng, rep):
+    """Every in-range INITIAL_WINDOW_SIZE is accepted, also one below what the endpoint already has in flight on a stream: the
+    window then goes negative (RFC 7540 6.9.2), the frame is acknowledged and reported like any other."""
+    e_client = rng.random() < 0.5
+    h = scen.Hostile(e_client, keep_log=True)
+    t = h.t
+    sid = h.reach('open')
+    if not e_client and not t.call('send_headers', sid, RESP).ok:
+        return
+    used = rng.choice([1, 1000, 16384, 40000, 65535])
+    left = used
+    while left > 0:
+        n = min(left, 16384)
+        if not t.call('send_data', sid, b's' * n).ok:
+            return
+        left -= n
+    v = rng.choice([0, 1, used - 1, used, used + 1, 100, 65535, 2 ** 31 - 1])
+    v = max(0, v)
+    res = h.send(wire.build_settings([(4, v)]))
+    rep.count('shrink_cases_judged')
+    if v < used:
+        rep.count('shrink_below_octets_in_flight')
+    w = {'role': 'client' if e_client else 'server', 'octets_in_flight': used, 'new_initial_window_size': v, 'log_tail': t.tail_log(2)}
+    rep.nontrivial(('shrink', e_client, used, v))
+    if res.exc is not None:
+        rep.violation('C12:valid-setting-rejected:id-4', 'received INITIAL_WINDOW_SIZE %d with %d octets in flight raised %s' %
+                      (v, used, core.exc_key(res.exc)), w)
+        return
+    acks = [f for f in res.frames if f.type == wire.SETTINGS and f.ack]
+    ev = [e for e in res.events if type(e).__name__ == 'RemoteSettingsChanged']
+    if len(acks) != 1 or len(ev) != 1:
+        rep.violation('C12:accepted-settings-not-acked', 'INITIAL_WINDOW_SIZE %d with %d in flight: frames %s events %s' %
+                      (v, used, [f.brief() for f in res.frames], [type(e).__name__ for e in res.events]), w)
+        return
+    lw = t.call('local_flow_control_window', sid)
+    if lw.exc is not None or lw.value != min(v - used, 65535 - used):
+        rep.violation('C12:window-after-accepted-setting-wrong', 'local_flow_control_window(%d) = %r after INITIAL_WINDOW_SIZE %d with %d in flight' %
+                      (sid, lw.value if lw.exc is None else lw.exc, v, used), w)
+
+
 def run_overflow(idx, rng, rep):
     """INITIAL_WINDOW_SIZE delta against stream send windows close to 2^31-1."""
+    if rng.random() < 0.25:
+        return run_shrink(rng, rep)
     e_client = rng.random() < 0.5
     h = scen.Hostile(e_client, keep_log=True)
     t = h.t
